@@ -217,7 +217,15 @@ fn run_batch(prop: &str, tier: &str, runs: u64, jobs: u64, base_seed: u64, keep_
 
 fn known_findings() -> Vec<Value> {
     match std::fs::read("/verif/known_findings.json") {
-        Ok(d) => serde_json::from_slice::<Value>(&d).ok().and_then(|v| v["findings"].as_array().cloned()).unwrap_or_default(),
+        Ok(d) => {
+            let mut v = serde_json::from_slice::<Value>(&d).ok().and_then(|v| v["findings"].as_array().cloned()).unwrap_or_default();
+            // development aid (tools/known_witness.sh): report one listed finding as an ordinary violation so that a
+            // minimised witness replay is written for it; never set by a registered command
+            if let Ok(id) = std::env::var("VERIF_WITNESS_FOR") {
+                v.retain(|k| k["id"].as_str() != Some(id.as_str()));
+            }
+            v
+        }
         Err(_) => Vec::new(),
     }
 }
